@@ -16,6 +16,7 @@ void rule_sink(int ev, long a, long b, long c, long) {
     if (!g_rtrace) return;
     if (ev == 2) fprintf(g_rtrace, "{\"e\":\"Step\",\"rule\":%ld,\"pos\":%ld,\"adv\":%ld}\n", a + 1, b + 1, c);
     else if (ev == 1) fputs("{\"e\":\"PassEnd\"}\n", g_rtrace);
+    else if (ev == 5) fprintf(g_rtrace, "{\"e\":\"PassBegin\",\"p\":%ld}\n", a + 1);      // the engine decided to run pass a (not skipped)
 }
 }
 
@@ -53,6 +54,7 @@ GRV_CMD(gdl) {
             GRV_WATCHDOG;
             if (rtrace && dir == rtl) { fprintf(rtrace, "{\"e\":\"Case\",\"c\":%ld}\n", g_cases); g_rtrace = rtrace; }
             gr_segment *seg = gr_make_seg(0, face, 0, fv, gr_utf32, cps.data(), cps.size(), dir);
+            if (g_rtrace) fputs("{\"e\":\"CaseEnd\"}\n", g_rtrace);
             g_rtrace = 0;
             if (!seg) { ++nullsegs; if (!nocompare) { vj::W w; w.str("id", id); report_fail("C06", "gr_make_seg returned NULL for a progress-only rule program", w.done()); } continue; }
             SegP p = project(seg, face, 0, true);
